@@ -128,6 +128,10 @@ func Line(r *rng.R, max int) []byte {
 // BulkPayload returns a random binary payload biased towards hostile content.
 func BulkPayload(r *rng.R, max int) []byte {
 	var n int
+	if max >= 65536 && r.Chance(1, 40) {
+		// lengths right below the 64 KiB bound of the statement: buffer-growth boundaries live here
+		return r.Bytes(rng.Pick(r, []int{65533, 65534, 65535, 65536}))
+	}
 	switch r.Intn(10) {
 	case 0:
 		n = 0
